@@ -260,6 +260,7 @@ class LoopSpec:
         self.tag = tag
         self.types = types or {}
         self.at_end = None
+        self.at_entry = None
 
 
 class LoopCtx:
@@ -1260,6 +1261,11 @@ class Interp:
         for a in (it.assumptions if it is not None else []):
             st.assume(a)
             entry.assume(a)
+        if spec.at_entry is not None:
+            # definitional ghost axioms (e.g. partial sums of the sequence being walked)
+            for z in spec.at_entry(LoopCtx(st, k0, n, elem, entry, self)):
+                st.assume(z)
+                entry.assume(z)
         # 1. invariant holds on entry
         self.oblige(st, f'{name}.inv_entry', self._inv(spec, LoopCtx(st, k0, n, elem, entry, self)), tag=spec.tag, split=True)
         # 2. arbitrary iteration
@@ -1277,8 +1283,10 @@ class Interp:
         body_st.assume(self._inv(spec, LoopCtx(body_st, k, n, elem, entry, self)))
         exit_st = body_st.copy()
         exit_st.frozen = outer_frozen
-        self._frame_base = {(m[1].name, m[2]): (body_st.heap.arr(m[1], m[2]), [body_st.lookup(nm).z for nm in m[3]])
-                            for m in spec.modifies if isinstance(m, tuple) and m[0] == 'heap_at'}
+        if not hasattr(self, '_frame_bases'):
+            self._frame_bases = {}
+        self._frame_bases[name] = {(m[1].name, m[2]): (body_st.heap.arr(m[1], m[2]), [body_st.lookup(nm).z for nm in m[3]])
+                                   for m in spec.modifies if isinstance(m, tuple) and m[0] == 'heap_at'}
         exit_st.events[-1] = Event('loop_exit', loop=name, pc_len=len(exit_st.pc), locks=exit_st.locks_held)
         heap_before = set(body_st.heap.written)
         body_st.heap.written = set()
@@ -1400,7 +1408,7 @@ class Interp:
 
     def check_frame(self, st, spec, name, ghost_before):
         allowed = {(m[1].name, m[2]) for m in spec.modifies if isinstance(m, tuple) and m[0] in ('heap', 'heap_at')}
-        for key, (before, refs) in getattr(self, '_frame_base', {}).items():
+        for key, (before, refs) in getattr(self, '_frame_bases', {}).get(name, {}).items():
             if key in st.heap.written:
                 r = z3.Int(sym.fresh_name('fr'))
                 after = st.heap.arrays[key]
